@@ -34,6 +34,15 @@ def treebank(max_tokens, max_trees=6):
                 j = draw(st.integers(0, len(toks) - 1))
                 toks[i]["n"], toks[j]["n"] = toks[j]["n"], toks[i]["n"]
                 pool.append({"sid": 1, "root": base})
+        if draw(st.integers(0, 7)) == 0:
+            # a flat constituent with 9..12 children (wide rules), possibly one of them outside its span
+            n = draw(st.integers(9, 12))
+            toks = [{"w": draw(st.sampled_from(["a", "b", "c"])), "p": draw(st.sampled_from(["NN", "VB", "ART"])), "n": i + 1, "e": "--", "lem": "--", "m": "--"} for i in range(n + 1)]
+            if draw(st.booleans()):
+                k = draw(st.integers(1, n - 2))
+                toks[k]["n"], toks[n]["n"] = toks[n]["n"], toks[k]["n"]
+            flat = {"l": draw(st.sampled_from(["NP", "X"])), "e": "--", "lem": "--", "m": "--", "c": toks[:n]}
+            pool.append({"sid": 1, "root": {"l": "VROOT", "e": "--", "lem": "--", "m": "--", "c": [flat, toks[n]]}})
         picks = draw(st.lists(st.integers(0, len(pool) - 1), min_size=1, max_size=max_trees))
         return [pool[i] for i in picks]
     return build()
